@@ -329,6 +329,14 @@ impl AsyncRead for ServerEnd {
             let mut st = this.st.lock().unwrap();
             if let Some(kind) = st.in_closed.clone() {
                 st.reads_after_eof += 1;
+                if st.reads_after_eof > 20_000 {
+                    // a handler that keeps reading after the end of the stream: park it so that the run
+                    // can end and the oracle can judge it (the count is part of the outcome)
+                    if st.reads_after_eof == 20_001 {
+                        this.world.lock().unwrap().fault("read_storm_after_eof_parked");
+                    }
+                    return Poll::Pending;
+                }
                 return match kind {
                     EofKind::Clean => Poll::Ready(Ok(())),
                     EofKind::Reset => {
